@@ -15,7 +15,7 @@ func init() {
 		ID: "C09", Level: "exploration", PanicClause: "C09.panic",
 		Cases: func(tier string) int {
 			if tier == "quick" {
-				return 5000
+				return 8000
 			}
 			return 250000
 		},
